@@ -198,20 +198,26 @@ func Derive(s Spec, passphrase []byte, keyLen int) []byte {
 // first total octets of unit||unit||unit||..., and concatenates the digests until keyLen
 // octets are available.
 func DeriveRaw(alg Alg, unit []byte, total, keyLen int) []byte {
+	var chunk []byte
+	if total > 0 {
+		// a chunk holding a whole number of units, at least 64 KiB when units are small
+		reps := 1
+		if len(unit) < 1<<16 {
+			reps = (1<<16)/len(unit) + 1
+		}
+		if reps*len(unit) > total {
+			reps = total/len(unit) + 1
+		}
+		chunk = make([]byte, 0, reps*len(unit))
+		for r := 0; r < reps; r++ {
+			chunk = append(chunk, unit...)
+		}
+	}
 	var key []byte
 	for ctx := 0; len(key) < keyLen; ctx++ {
 		d := alg.New()
 		d.Write(make([]byte, ctx)) // preload
 		if total > 0 {
-			// a chunk holding a whole number of units, at least 64 KiB when units are small
-			reps := 1
-			if len(unit) < 1<<16 {
-				reps = (1<<16)/len(unit) + 1
-			}
-			chunk := make([]byte, 0, reps*len(unit))
-			for r := 0; r < reps; r++ {
-				chunk = append(chunk, unit...)
-			}
 			left := total
 			for left >= len(chunk) {
 				d.Write(chunk)
